@@ -87,14 +87,15 @@ def grep_forbidden():
     return hits
 
 
-def audit(theorems, tag):
+def audit(theorems, tag, modules=None):
     """#print axioms for each theorem.  Returns dict name -> {'ok': bool, 'axioms': [...], 'msg': str}."""
     res = {}
     if not theorems:
         return res
-    path = os.path.join(LEAN, 'AuditTmp_%s.lean' % tag)
+    path = os.path.join(LEAN, 'AuditTmp_%s_%d.lean' % (tag, os.getpid()))
     with open(path, 'w') as f:
-        f.write('import PP\n')
+        for m in (modules or ['PP']):
+            f.write('import %s\n' % m)
         for t in theorems:
             f.write('#print axioms %s\n' % t)
     try:
